@@ -75,6 +75,16 @@ def long_fs(case):
             entries.append({'path': p, 'hdr': 'full', 'type': t, 'n': n})
             active.append([p, t, n])
             data[p] = [blob]
+        if case.get('strings'):
+            # a string channel of several thousand short values, split over the segments like the others
+            total_s = case['strings']
+            lo_s, hi_s = total_s * si // nseg, total_s * (si + 1) // nseg
+            vals_s = ['s%d' % (i * 7 % 1000) for i in range(lo_s, hi_s)]
+            p = make_path('big', 'text')
+            entries.append({'path': p, 'hdr': 'full', 'type': 'str', 'n': len(vals_s),
+                            'total': sum(4 + len(v) for v in vals_s)})
+            active.append([p, 'str', len(vals_s)])
+            data[p] = [vals_s]
         p = make_path('big', 'tail')
         entries.append({'path': p, 'hdr': 'full', 'type': 'i16', 'n': 2})
         active.append([p, 'i16', 2])
@@ -96,6 +106,7 @@ def long_sources(draw):
         chans.append([t, total, draw(st.integers(1, 250)), draw(st.integers(0, 250))])
     nseg = draw(st.integers(1, 3))
     return {'long': True, 'chans': chans, 'nseg': nseg, 'cuts': draw(st.lists(st.integers(0, 8), min_size=2, max_size=2)),
+            'strings': draw(st.sampled_from([0, 0, 4095, 4096, 4097, 8192, 8193, 10000])),
             'picks': None, 'dst': draw(st.sampled_from(['path', 'stream', 'stream', 'same_path'])),
             'src': draw(st.sampled_from(['path', 'stream'])), 'index': draw(st.booleans()),
             'version': draw(st.sampled_from([4712, 4713]))}
